@@ -427,6 +427,23 @@ def o_merkleblock(case):
     net = NETS[case["net"]]
     n, mask, seed = case["n"], case["mask"], case["seed"]
     txids = [_stream(seed, "t%d" % i, 32) for i in range(n)]
+    repeated = False
+    if case.get("dups") and n >= 3:
+        # the same id at several positions that are not merkle siblings at any level (sibling repeats are the
+        # CVE-2012-2459 shape, judged separately below), each of the copies matched
+        cand = list(txids)
+        m2 = mask
+        for dst, src in case["dups"]:
+            cand[dst % n] = cand[src % n]
+            m2 |= (1 << (dst % n)) | (1 << (src % n))
+        level, ok = list(cand), len(set(cand)) < n
+        while ok and len(level) > 1:
+            ok = all(level[i] != level[i + 1] for i in range(0, len(level) - 1, 2))
+            if len(level) & 1:
+                level.append(level[-1])
+            level = [ref.sha256d(level[i] + level[i + 1]) for i in range(0, len(level), 2)]
+        if ok:
+            txids, mask, repeated = cand, m2, True
     match = [(mask >> i) & 1 for i in range(n)]
     want = [t for t, m in zip(txids, match) if m]
     root = ref.merkle_root(txids)
@@ -450,6 +467,8 @@ def o_merkleblock(case):
             [txids.index(h) if h in txids else h.hex()[:8] for h in d["tx_hashes"]][:40], len(want)))
     if d["header"].as_bin() != hdr or d["total_transactions"] != n or list(d["hashes"]) != hashes or bytes(d["flags"]) != flags:
         _bad("merkleblock:parsed-fields", "parsed header/count/hashes/flags differ from what was sent (n=%d)" % n)
+    if repeated:
+        return ["repeated-ids-matched", "n=%s" % ("<=8" if n <= 8 else ">8")]
     # ---- corruptions: every one must be refused
     nh = len(hashes)
     if nh <= 24:
@@ -556,7 +575,8 @@ def s_merkleblock():
     header = st.tuples(u32, st.binary(min_size=32, max_size=32).map(bytes.hex), u32, u32, u32).map(list)
     return n.flatmap(lambda k: st.fixed_dictionaries({
         "mask": masks(k), "net": st.sampled_from(["btc", "btc", "ltc"]), "n": st.just(k), "seed": st.integers(0, 10 ** 9),
-        "hdr": header, "pos": st.lists(st.integers(0, 10 ** 4), min_size=10, max_size=10), "bit": st.integers(0, 255)}))
+        "hdr": header, "pos": st.lists(st.integers(0, 10 ** 4), min_size=10, max_size=10), "bit": st.integers(0, 255),
+        "dups": weighted((5, st.just([])), (1, st.lists(st.tuples(st.integers(0, k), st.integers(0, k)).map(list), min_size=1, max_size=3)))}))
 
 
 SUBCHECKS = [
